@@ -120,6 +120,8 @@ func (g *core) render(c gengo.Context, parts []proto.Part) {
 			c.Render(snippet.Block(docComment(c, p.DocRef)))
 		case p.Results:
 			c.Render(snippet.Block(resultsComment(c)))
+		case p.FieldDocs:
+			c.Render(snippet.Block(fieldDocsComment(c, st.curObj)))
 		case p.Locate != "":
 			c.Render(snippet.Block(locateComment(c, p.Locate)))
 		case p.Bulk > 0:
@@ -536,4 +538,37 @@ func buildGenerators(scripts []proto.GenScript) ([]gengo.Generator, error) {
 		}
 	}
 	return out, nil
+}
+
+// fieldDocsComment: what Context.Doc says about every field of the struct obj names.
+func fieldDocsComment(c gengo.Context, obj *types.TypeName) string {
+	var sb strings.Builder
+	sb.WriteString("\n")
+	var st *types.Struct
+	if obj != nil {
+		st, _ = obj.Type().Underlying().(*types.Struct)
+	}
+	if st == nil {
+		sb.WriteString("// FIELDS none\n\n")
+		return sb.String()
+	}
+	for i := 0; i < st.NumFields(); i++ {
+		f := st.Field(i)
+		tags, doc := c.Doc(f)
+		keys := make([]string, 0, len(tags))
+		for k := range tags {
+			keys = append(keys, k)
+		}
+		sort.Strings(keys)
+		sb.WriteString("// FIELD " + f.Name() + " tags=[")
+		for j, k := range keys {
+			if j > 0 {
+				sb.WriteString(" ")
+			}
+			sb.WriteString(k + "=" + strings.Join(tags[k], ","))
+		}
+		sb.WriteString("] doc=[" + strings.ReplaceAll(strings.Join(doc, " | "), "\n", " ") + "]\n")
+	}
+	sb.WriteString("\n")
+	return sb.String()
 }
